@@ -47,7 +47,10 @@ struct Explorer {
 
 	void violation(const char* prop, const std::string& fp, const std::string& msg, const Exec& x, const std::string& extra = "") {
 		E::R().violation(prop, fp, msg, x.full(), extra.empty() ? E::traceText(x.trace, x.stepBegin) : extra);
-		const_cast<Exec&>(x).bad = true;
+		// states reached by an execution that broke a *state* invariant (well-formedness, lifecycle balance, prescribed
+		// configuration) are reported once and not expanded; violations about answers/observations do not corrupt the state
+		const std::string p = prop;
+		if (p == "C01" || p == "C02" || p == "C03" || p == "C11") const_cast<Exec&>(x).bad = true;
 	}
 
 	// ---------------------------------------------------------------------------------------------
@@ -65,6 +68,7 @@ struct Explorer {
 		x.hist = &node.hist;
 		x.step = step;
 		x.bad = false;
+		guardSnaps.clear();
 		Runner r;
 		r.env.monitoring = false;
 		for (const Step& s : node.hist) r.apply(s, opt.fill);
@@ -243,6 +247,14 @@ struct Explorer {
 	void liveChecks(Runner& r, Exec& x);
 	void afterExec(const Node& node, Exec& x);
 	void checkC02(const Node& node, Exec& x);
+	void checkC05(const Node& node, Exec& x);
+	void checkC04(const Node& node, Exec& x);
+	void checkC13(const Node& node, Exec& x);
+	struct Round { size_t first, last; bool cancelled; int pending; };
+	std::vector<Round> rounds(const Exec& x) const;
+	struct GuardSnap { int state, meth; std::vector<uint8_t> bits; std::vector<int> req; };
+	std::vector<GuardSnap> guardSnaps;
+	std::vector<uint8_t> pendingQuiescent;
 	Snap initialSnap;
 	std::vector<int> initialEnters;
 
@@ -312,6 +324,7 @@ struct Explorer {
 	bool deviates(const Op& op) const {
 		// which ops get callback deviations: the stepping ops always; request ops only when guards/answers are of interest
 		if (op.type == OP_UPDATE || op.type == OP_REACT || op.type == OP_QUERY || op.type == OP_CONSTRUCT || op.type == OP_ENTER) return true;
+		if (op.type == OP_IMMEDIATE && opt.immReduced && op.r[0].kind > T_RESUME) return false;
 		if (op.type == OP_IMMEDIATE || op.type == OP_RESET) return opt.devImmediate;
 		if (op.type == OP_BATCH) return false;
 		return false;
@@ -322,6 +335,9 @@ struct Explorer {
 
 	void consider(const Node& node, const Exec& x, std::deque<Node>& frontier) {
 		if (x.bad) return;	// violating states are reported once and not expanded
+		// the substitution limit was hit with a request still queued: the library itself treats this as a contract breach
+		// (assertion in processTransitions); such states are counted, not expanded (every monitor assumes an empty queue)
+		if (x.keyAfter.find("|Q") != std::string::npos) { ++counters["states_with_leftover_queue_not_expanded"]; return; }
 		if ((long) seen.size() >= opt.maxStates) { capped = true; return; }
 		if (seen.insert(x.keyAfter).second) {
 			Node nn{x.full(), x.keyAfter, node.depth + 1, x.activatedAfter};
@@ -338,9 +354,23 @@ struct Explorer {
 		process(node, base);
 		consider(node, base, frontier);
 		if (dev < 1 || !deviates(op)) return;
+		if ((props & P_C04) && opt.devImmediate)
+			// adversarial guard scripts: the same guard takes the same non-default decision in *every* round
+			for (size_t i = 0; i < base.points.size(); ++i) {
+				const PointInfo p = base.points[i];
+				if (p.key.meth != M_ENTRY_GUARD && p.key.meth != M_EXIT_GUARD) continue;
+				for (int alt = 1; alt < p.reduced; ++alt) {
+					Exec xs;
+					PointKey k = p.key; k.occ = 0xFFFE;
+					run(node, Step{op, {Choice{k, (uint16_t) alt}}}, xs);
+					process(node, xs);
+					consider(node, xs, frontier);
+				}
+			}
 		for (size_t i = 0; i < base.points.size(); ++i) {
 			const PointInfo p = base.points[i];
-			for (int alt = 1; alt < p.menu; ++alt) {
+			const int lim = ((op.type == OP_IMMEDIATE || op.type == OP_RESET) && opt.immReduced) ? p.reduced : p.menu;
+			for (int alt = 1; alt < lim; ++alt) {
 				Exec x1;
 				run(node, Step{op, {Choice{p.key, (uint16_t) alt}}}, x1);
 				process(node, x1);
@@ -448,6 +478,7 @@ int main(int argc, char** argv) {
 		else if (a == "--max-states") opt.maxStates = atol(next().c_str());
 		else if (a == "--classes") opt.classes = (unsigned) strtoul(next().c_str(), nullptr, 0);
 		else if (a == "--dev-immediate") opt.devImmediate = atoi(next().c_str()) != 0;
+		else if (a == "--imm-reduced") opt.immReduced = atoi(next().c_str()) != 0;
 		else if (a == "--fill") opt.fill = (unsigned char) strtoul(next().c_str(), nullptr, 0);
 		else if (a == "--replay") opt.replay = next();
 		else if (a == "--verbose") opt.verbose = true;
